@@ -29,6 +29,7 @@ fn gen_history(r: &mut Rng, cfg: &SysCfg, ntypes: u64, len: usize, crashes: bool
             match r.below(8) {
                 0 | 1 => Op::D,
                 2 | 3 => Op::Xm,
+                4 => Op::Ff,
                 _ => Op::X,
             }
         } else {
@@ -104,6 +105,10 @@ fn witnesses() -> Vec<(SysCfg, u64, Vec<Op>)> {
         (c2.clone(), 1, vec![s(1), s(2), Op::Xm, Op::R, Op::Ls]),
         // C01-wal-replay-duplicates: crash after publication, before WAL cleanup
         (c2.clone(), 1, vec![s(1), s(2), Op::Adv, Op::Adv, Op::Adv, Op::X, Op::R, Op::Ls]),
+        // the skew again, through a FAILED flush: job 0 cannot create its directory and keeps its rows
+        // in the retained passive buffer; the cleanup of job 1 (`cleanup_up_to(1 + 1)`) deletes the
+        // log that holds them; a crash then loses two acknowledged events
+        (c2.clone(), 1, vec![s(1), s(2), Op::Ff, s(3), s(4), Op::Run, Op::R, Op::Ls, Op::X, Op::R, Op::Ls]),
     ]
 }
 
